@@ -1,8 +1,20 @@
 /* C03: the accelerated/portable dispatch of crypto_aes.c must stay consistent when an allocation fails
  * inside its first-use self-test.  White-box: `hwaccel` is reset so that every op starts like a fresh
- * process; the k-th malloc made during the first key expansion fails once. */
+ * process; the k-th malloc made during the first key expansion fails once.
+ * With -DHC_BLACKBOX (notes/blackbox.md) crypto_aes.c and crypto_aesctr.c are separate units and the dispatch
+ * variables cannot be reset: every `aesfail` op runs in a forked child of a parent that never calls the library,
+ * so it IS a fresh process (the child runs the leak check before it leaves; its death is passed on). */
 #include "hcommon.h"
+#ifdef HC_BLACKBOX
+#include <sys/wait.h>
+#include <unistd.h>
+#ifdef __SANITIZE_ADDRESS__
+#include <sanitizer/lsan_interface.h>
+#endif
+#include "crypto_aes.h"
+#else
 #include "crypto_aes.c"
+#endif
 #include "crypto_aesctr.h"
 
 void aesfail_ctr_reset(void);
@@ -55,10 +67,34 @@ main(void)
 			uint8_t c1[16], c2[16], sin[48], sout[48];
 			long k = atol(hc_tok[1]);
 			int j;
+#ifdef HC_BLACKBOX
+			pid_t pid;
+			int st;
+
+			fflush(stdout);
+			if ((pid = fork()) == -1)
+				abort();
+			if (pid != 0) {
+				/* parent: the child answers; a child that died takes this process with it */
+				if (waitpid(pid, &st, 0) != pid)
+					abort();
+				if (WIFSIGNALED(st)) {
+					signal(WTERMSIG(st), SIG_DFL);
+					raise(WTERMSIG(st));
+					abort();
+				}
+				if (!WIFEXITED(st) || WEXITSTATUS(st) != 0)
+					_exit(WIFEXITED(st) ? WEXITSTATUS(st) : 1);
+				free(k1b); free(blk); free(k2b);
+				continue;
+			}
+#endif
 
 			misalign = (hc_ntok == 6);	/* a fifth argument: hand out blocks that are 8 mod 16 */
+#ifndef HC_BLACKBOX
 			hwaccel = HW_UNSET;		/* as in a fresh process */
 			aesfail_ctr_reset();
+#endif
 			nmalloc = 0;
 			fail_at = k;
 			k1 = crypto_aes_key_expand(k1b, l1);
@@ -74,12 +110,25 @@ main(void)
 				for (j = 0; j < 48; j++) sin[j] = (uint8_t)(blk[j % 16] + j);
 				crypto_aesctr_buf(k1, 7, sin, sout, 48);
 				printf("ct "); hc_puthex(c1, 16); putchar(' '); hc_puthex(c2, 16); putchar(' '); hc_puthex(sout, 48);
+#ifdef HC_BLACKBOX
+				printf(" | mallocs=%ld", nmalloc);
+#else
 				printf(" | mallocs=%ld hw=%d", nmalloc, (int)hwaccel);
+#endif
 				crypto_aes_key_free(k1);
 				crypto_aes_key_free(k2);
 			}
 			misalign = 0;
 			free(k1b); free(blk); free(k2b);
+#ifdef HC_BLACKBOX
+			/* child: finish the line, leak check, and leave without touching the shared stdin offset */
+			putchar('\n');
+			fflush(stdout);
+#ifdef __SANITIZE_ADDRESS__
+			__lsan_do_leak_check();
+#endif
+			_exit(0);
+#endif
 		} else
 			printf("bad-op");
 		HC_END();
